@@ -115,7 +115,7 @@ PROPS = {
         "no_panic": ["build "],
     },
     "C05": {
-        "modules": ["Capnp.Props.C05"],
+        "modules": ["Capnp.Props.C05", "Capnp.Props.C05A"],
         "gen": True,
         "rule": "the same builder scripts as C04; the segments the library produced are judged by the Lean spec alone: Spec.Encoding.decodeTree "
                 "(independent decoder) must reconstruct exactly the written tree, and Spec.Encoding.validMessage must hold (whole-word segments, "
